@@ -115,15 +115,20 @@ func runC04(c *Ctx) {
 		pidx := -1
 		for _, f := range ff.Facts {
 			if f.IsCmp && ((f.L.Any(heightOfBlock.F) && f.R.Any(finH.F)) || (f.R.Any(heightOfBlock.F) && f.L.Any(finH.F))) {
-				f.L.Walk(func(t *Term) bool {
-					if t.Op == "param" {
-						fmt.Sscanf(t.Sym, "p%d", &pidx)
-					}
-					return true
-				})
-				f.R.Walk(func(t *Term) bool {
-					if t.Op == "param" && pidx < 0 {
-						fmt.Sscanf(t.Sym, "p%d", &pidx)
+				side := f.L
+				if !f.L.Any(heightOfBlock.F) {
+					side = f.R
+				}
+				// the parameter under the Height selector on the block side only (the other side
+				// mentions the receiver through GetFinalizedHeight())
+				side.Walk(func(t *Term) bool {
+					if heightOfBlock.F(t) {
+						t.Walk(func(u *Term) bool {
+							if u.Op == "param" {
+								fmt.Sscanf(u.Sym, "p%d", &pidx)
+							}
+							return true
+						})
 					}
 					return true
 				})
